@@ -4,8 +4,14 @@ use crate::wal::paths::WalPathManager;
 use crate::wal::storage::{SharedMmap, SharedMmapKeeper};
 use std::cell::UnsafeCell;
 use std::collections::HashMap;
+#[cfg(not(walrus_verif))]
 use std::sync::atomic::{AtomicBool, AtomicU16, Ordering};
+#[cfg(walrus_verif)]
+use crate::wal::verif::sync::atomic::{AtomicBool, AtomicU16, Ordering};
+#[cfg(not(walrus_verif))]
 use std::sync::{Arc, OnceLock, RwLock};
+#[cfg(walrus_verif)]
+use crate::wal::verif::sync::{Arc, OnceLock, RwLock};
 
 use super::DELETION_TX;
 
@@ -339,4 +345,32 @@ impl FileStateTracker {
         let fully = st.is_fully_allocated.load(Ordering::Acquire);
         Some((locked, checkpointed, total, fully))
     }
+}
+
+#[cfg(walrus_verif)]
+pub(super) fn verif_reclaim_snapshot() -> (
+    Vec<crate::wal::verif::FileStateRow>,
+    Vec<crate::wal::verif::BlockStateRow>,
+) {
+    let mut files = Vec::new();
+    if let Ok(r) = FileStateTracker::map().read() {
+        for (path, st) in r.iter() {
+            files.push((
+                path.clone(),
+                st.locked_block_ctr.load(Ordering::Acquire),
+                st.checkpoint_block_ctr.load(Ordering::Acquire),
+                st.total_blocks.load(Ordering::Acquire),
+                st.is_fully_allocated.load(Ordering::Acquire),
+            ));
+        }
+    }
+    files.sort();
+    let mut blocks = Vec::new();
+    if let Ok(r) = BlockStateTracker::map().read() {
+        for (id, st) in r.iter() {
+            blocks.push((*id, st.file_path.clone(), st.is_checkpointed.load(Ordering::Acquire)));
+        }
+    }
+    blocks.sort();
+    (files, blocks)
 }
